@@ -195,7 +195,10 @@ func RunMode(src string, prog *vm.Program, m Mode, e *Env, lg *Log) Got {
 			out, err = expr.Run(prog, env)
 		}
 	})
-	g := Got{Stage: "run", Calls: append([]CallRec{}, lg.Calls...)}
+	g := Got{Stage: "run"}
+	if lg != nil {
+		g.Calls = append([]CallRec{}, lg.Calls...)
+	}
 	if pmsg != "" || hang {
 		g.Panic, g.Hang = pmsg, hang
 		return g
